@@ -1,14 +1,1134 @@
-//! Suite `cert` (stub: replaced by the owner of the suite).
+//! Suite `cert` (C19): the REAL `varlink-certification` server binary on a unix socket, spoken to
+//! with raw NUL-framed JSON.
+//!
+//! Case input:
+//!   (cert (q <conn> <class> <rawjson>)*)   requests in order; <conn> = which of the harness's
+//!        connections carries it (opened on first use, re-opened after the server closed it);
+//!        strings "@cidK" stand for the client id handed out by the K-th successful Start of this
+//!        case (substituted on the way out, substituted back in every reply);
+//!        <class> = what the generator did to this request: canon | same (JSON differs from the
+//!        canonical request, typed value and call mode do not) | dev (deviates) | other
+//!   (conc <n>)         n threads, each a canonical client on its own connection, all at once
+//!   (realclient <n>)   n processes `varlink-certification --client` against the server, all at once
+//!
+//! Observation:
+//!   cert:       (obs (r <closed t|f> <reply>*)*)   reply = (rep <continues> <error> <params>)
+//!   conc:       (obs (client (r ...)*)*)           in thread order, thread c's id printed as "@cidc"
+//!   realclient: (obs (exit <code>)*)
+//! The text of an InvalidParameter reply produced from a serde error is printed as "*".
+use crate::rng::Rng;
+use crate::suites::serde::raw_text;
 use crate::sx::{self, Sx};
 use crate::{Case, Ctx, Suite};
+use serde_json::{json, Value};
+use std::io::{Read, Write};
+use std::os::unix::net::UnixStream;
+use std::os::unix::process::CommandExt;
+use std::process::{Child, Command, Stdio};
+use std::sync::Mutex;
+use std::time::Duration;
 
 pub struct CertSuite;
 
-impl Suite for CertSuite {
-    fn generate(&self, _ctx: &Ctx) -> Vec<Case> {
-        Vec::new()
+struct Server {
+    child: Child,
+    path: String,
+}
+
+impl Drop for Server {
+    fn drop(&mut self) {
+        let _ = self.child.kill();
+        let _ = self.child.wait();
+        let _ = std::fs::remove_file(&self.path);
     }
-    fn run(&self, _ctx: &Ctx, _input: &Sx) -> Sx {
-        sx::atom("stub")
+}
+
+static SERVER: Mutex<Option<Server>> = Mutex::new(None);
+
+fn server_bin() -> String {
+    let exe = std::env::current_exe().expect("current_exe");
+    exe.parent().unwrap().join("varlink-certification").to_string_lossy().into_owned()
+}
+
+fn socket_path(ctx: &Ctx) -> String {
+    // unix socket paths are limited to ~107 bytes: fall back to /tmp for deep output directories
+    let p = format!("{}/cert.sock", ctx.out_dir);
+    let abs = std::fs::canonicalize(&ctx.out_dir).map(|d| format!("{}/cert.sock", d.display())).unwrap_or(p);
+    if abs.len() < 100 {
+        abs
+    } else {
+        format!("/tmp/vv-cert-{}.sock", std::process::id())
+    }
+}
+
+fn start_server(ctx: &Ctx) {
+    let mut g = SERVER.lock().unwrap();
+    if g.is_some() {
+        return;
+    }
+    let path = socket_path(ctx);
+    let _ = std::fs::remove_file(&path);
+    let mut cmd = Command::new(server_bin());
+    cmd.arg(format!("--varlink=unix:{}", path))
+        .arg("--timeout")
+        .arg("30") // exits by itself when idle, should the harness be killed
+        .stdin(Stdio::null())
+        .stdout(Stdio::null())
+        .stderr(Stdio::null());
+    unsafe {
+        cmd.pre_exec(|| {
+            // die with the harness
+            libc::prctl(libc::PR_SET_PDEATHSIG, libc::SIGKILL);
+            Ok(())
+        });
+    }
+    let child = cmd.spawn().expect("spawn varlink-certification");
+    let srv = Server { child, path: path.clone() };
+    for _ in 0..500 {
+        if UnixStream::connect(&path).is_ok() {
+            *g = Some(srv);
+            return;
+        }
+        std::thread::sleep(Duration::from_millis(10));
+    }
+    drop(srv);
+    panic!("certification server did not come up");
+}
+
+fn stop_server() {
+    let mut g = SERVER.lock().unwrap();
+    *g = None; // Drop kills, reaps, removes the socket
+}
+
+fn server_path() -> String {
+    SERVER.lock().unwrap().as_ref().map(|s| s.path.clone()).expect("server not running")
+}
+
+// ---------------------------------------------------------------------------
+// raw socket client
+
+struct Conn {
+    s: UnixStream,
+    buf: Vec<u8>,
+}
+
+fn connect(path: &str) -> Option<Conn> {
+    let s = UnixStream::connect(path).ok()?;
+    s.set_read_timeout(Some(Duration::from_secs(10))).ok()?;
+    s.set_write_timeout(Some(Duration::from_secs(10))).ok()?;
+    Some(Conn { s, buf: Vec::new() })
+}
+
+enum End {
+    Open,
+    Closed,
+    Timeout,
+}
+
+/// send one request followed by a sentinel call; everything that arrives before the sentinel's
+/// reply (or before EOF) is the reply list of the request
+fn exchange(c: &mut Conn, req: &[u8], nonce: usize) -> (Vec<Value>, End) {
+    let sentinel_if = format!("zz.sentinel{}", nonce);
+    let mut out = Vec::with_capacity(req.len() + 64);
+    out.extend_from_slice(req);
+    out.push(0);
+    out.extend_from_slice(format!("{{\"method\":\"{}.X\"}}", sentinel_if).as_bytes());
+    out.push(0);
+    let _ = c.s.write_all(&out); // EPIPE shows up as EOF below
+    let mut replies = Vec::new();
+    loop {
+        while let Some(p) = c.buf.iter().position(|b| *b == 0) {
+            let msg: Vec<u8> = c.buf.drain(..=p).collect();
+            let v: Value = serde_json::from_slice(&msg[..msg.len() - 1]).unwrap_or(Value::String("<unparsable>".into()));
+            let is_sentinel = v.get("error").and_then(|e| e.as_str()) == Some("org.varlink.service.InterfaceNotFound")
+                && v.pointer("/parameters/interface").and_then(|e| e.as_str()) == Some(sentinel_if.as_str());
+            if is_sentinel {
+                return (replies, End::Open);
+            }
+            replies.push(v);
+        }
+        let mut tmp = [0u8; 65536];
+        match c.s.read(&mut tmp) {
+            Ok(0) => return (replies, End::Closed),
+            Ok(n) => c.buf.extend_from_slice(&tmp[..n]),
+            Err(e) => {
+                return match e.kind() {
+                    std::io::ErrorKind::WouldBlock | std::io::ErrorKind::TimedOut => (replies, End::Timeout),
+                    _ => (replies, End::Closed),
+                }
+            }
+        }
+    }
+}
+
+fn subst_out(s: &Sx, ids: &[String]) -> Sx {
+    match s {
+        Sx::Atom(_) => {
+            if let Some(t) = s.as_str() {
+                if let Some(k) = t.strip_prefix("@cid").and_then(|k| k.parse::<usize>().ok()) {
+                    if let Some(id) = ids.get(k) {
+                        return sx::xs(id);
+                    }
+                }
+            }
+            s.clone()
+        }
+        Sx::List(l) => Sx::List(l.iter().map(|x| subst_out(x, ids)).collect()),
+    }
+}
+
+fn subst_back(v: &Value, ids: &[String]) -> Value {
+    match v {
+        Value::String(s) => match ids.iter().position(|i| i == s) {
+            Some(k) => Value::String(format!("@cid{}", k)),
+            None => v.clone(),
+        },
+        Value::Array(a) => Value::Array(a.iter().map(|x| subst_back(x, ids)).collect()),
+        Value::Object(o) => Value::Object(o.iter().map(|(k, x)| (k.clone(), subst_back(x, ids))).collect()),
+        _ => v.clone(),
+    }
+}
+
+fn reply_sx(v: &Value, ids: &[String]) -> Sx {
+    let v = subst_back(v, ids);
+    let cont = v.get("continues").and_then(|c| c.as_bool());
+    let err = v.get("error").and_then(|e| e.as_str());
+    let mut params = v.get("parameters").cloned();
+    if err == Some("org.varlink.service.InvalidParameter") {
+        if let Some(p) = params.as_mut().and_then(|p| p.get_mut("parameter")) {
+            if p.as_str() != Some("parameters") {
+                *p = Value::String("*".into());
+            }
+        }
+    }
+    let known = ["continues", "error", "parameters"];
+    let extra = v.as_object().map(|o| o.keys().any(|k| !known.contains(&k.as_str()))).unwrap_or(true);
+    if extra {
+        return sx::tagged("rawrep", vec![sx::json(&v)]);
+    }
+    sx::tagged("rep", vec![sx::opt_bool(cont), sx::opt_str(err), sx::opt_json(params.as_ref())])
+}
+
+fn new_id_of(replies: &[Value]) -> Option<String> {
+    if replies.len() != 1 || replies[0].get("error").is_some() {
+        return None;
+    }
+    let p = replies[0].get("parameters")?.as_object()?;
+    if p.len() == 1 {
+        p.get("client_id")?.as_str().map(|s| s.to_string())
+    } else {
+        None
+    }
+}
+
+fn run_cert(qs: &[Sx]) -> Sx {
+    let path = server_path();
+    let mut conns: std::collections::HashMap<usize, Conn> = std::collections::HashMap::new();
+    let mut ids: Vec<String> = Vec::new();
+    let mut out = vec![];
+    for (n, q) in qs.iter().enumerate() {
+        let ql = q.as_list().expect("q");
+        let ci = ql[1].as_usize().expect("conn");
+        let tree = subst_out(&ql[3], &ids);
+        let mut text = String::new();
+        raw_text(&tree, &mut text).expect("raw json");
+        if !conns.contains_key(&ci) {
+            match connect(&path) {
+                Some(c) => {
+                    conns.insert(ci, c);
+                }
+                None => {
+                    out.push(sx::tagged("r", vec![sx::atom("connect-failed")]));
+                    continue;
+                }
+            }
+        }
+        let (replies, end) = exchange(conns.get_mut(&ci).unwrap(), text.as_bytes(), n);
+        if let Some(id) = new_id_of(&replies) {
+            ids.push(id);
+        }
+        let mut r = vec![match end {
+            End::Open => sx::atom("f"),
+            End::Closed => sx::atom("t"),
+            End::Timeout => sx::atom("timeout"),
+        }];
+        r.extend(replies.iter().map(|v| reply_sx(v, &ids)));
+        out.push(sx::tagged("r", r));
+        if !matches!(end, End::Open) {
+            conns.remove(&ci);
+        }
+    }
+    sx::tagged("obs", out)
+}
+
+// ---------------------------------------------------------------------------
+// canonical requests (the client half of main.rs, `run_client`)
+
+pub const STEPS: &[&str] = &[
+    "Start", "Test01", "Test02", "Test03", "Test04", "Test05", "Test06", "Test07", "Test08", "Test09", "Test10",
+    "Test11", "End",
+];
+
+fn mytype() -> Value {
+    json!({
+        "object": {"method": "org.varlink.certification.Test09", "parameters": {"map": {"foo": "Foo", "bar": "Bar"}}},
+        "enum": "two",
+        "struct": {"first": 1, "second": "2"},
+        "array": ["one", "two", "three"],
+        "dictionary": {"foo": "Foo", "bar": "Bar"},
+        "stringset": {"one": {}, "two": {}, "three": {}},
+        "nullable": null,
+        "nullable_array_struct": null,
+        "interface": {
+            "foo": [null, {"foo": "foo", "bar": "bar"}, null, {"one": "foo", "two": "bar"}],
+            "anon": {"foo": true, "bar": false}
+        }
+    })
+}
+
+/// canonical parameters of step `pos` (0 = Start: none)
+pub fn canon_params(pos: usize, cid: &str) -> Option<Value> {
+    let four = json!({"bool": false, "int": 2, "float": std::f64::consts::PI, "string": "a lot of string"});
+    Some(match pos {
+        0 => return None,
+        1 => json!({"client_id": cid}),
+        2 => json!({"client_id": cid, "bool": true}),
+        3 => json!({"client_id": cid, "int": 1}),
+        4 => json!({"client_id": cid, "float": 1.0}),
+        5 => json!({"client_id": cid, "string": "ping"}),
+        6 => json!({"client_id": cid, "bool": false, "int": 2, "float": std::f64::consts::PI, "string": "a lot of string"}),
+        7 => json!({"client_id": cid, "struct": four}),
+        8 => json!({"client_id": cid, "map": {"foo": "Foo", "bar": "Bar"}}),
+        9 => json!({"client_id": cid, "set": {"one": {}, "two": {}, "three": {}}}),
+        10 => json!({"client_id": cid, "mytype": mytype()}),
+        11 => json!({"client_id": cid, "last_more_replies": (1..=10).map(|i| format!("Reply number {}", i)).collect::<Vec<_>>()}),
+        12 => json!({"client_id": cid}),
+        _ => return None,
+    })
+}
+
+pub fn canon_request(pos: usize, cid: &str) -> Value {
+    let mut o = serde_json::Map::new();
+    o.insert("method".into(), Value::String(format!("org.varlink.certification.{}", STEPS[pos])));
+    if let Some(p) = canon_params(pos, cid) {
+        o.insert("parameters".into(), p);
+    }
+    if pos == 10 {
+        o.insert("more".into(), Value::Bool(true));
+    }
+    if pos == 11 {
+        o.insert("oneway".into(), Value::Bool(true));
+    }
+    Value::Object(o)
+}
+
+fn q(conn: usize, class: &str, tree: Sx) -> Sx {
+    sx::tagged("q", vec![sx::nat(conn), sx::atom(class), tree])
+}
+
+fn canon_q(conn: usize, pos: usize, client: usize) -> Sx {
+    q(conn, "canon", sx::json(&canon_request(pos, &format!("@cid{}", client))))
+}
+
+/// Start .. step pos-1 of client `client` on connection `conn`
+fn prefix(conn: usize, client: usize, pos: usize) -> Vec<Sx> {
+    (0..pos).map(|p| canon_q(conn, p, client)).collect()
+}
+
+// ---------------------------------------------------------------------------
+// JSON trees as Sx: (o (xkey v)*) | (a v*) | n | t | f | (i ..) | (d ..) | (s ..)
+
+fn tag_of(s: &Sx) -> &str {
+    match s {
+        Sx::Atom(a) => a.as_str(),
+        Sx::List(l) => l.first().and_then(|x| x.as_atom()).unwrap_or(""),
+    }
+}
+
+fn children(s: &Sx) -> Vec<Sx> {
+    match tag_of(s) {
+        "a" => s.as_list().unwrap()[1..].to_vec(),
+        "o" => s.as_list().unwrap()[1..].iter().map(|kv| kv.as_list().unwrap()[1].clone()).collect(),
+        _ => vec![],
+    }
+}
+
+fn with_child(s: &Sx, i: usize, new: Option<Sx>) -> Sx {
+    let l = s.as_list().unwrap();
+    let mut out = vec![l[0].clone()];
+    for (j, x) in l[1..].iter().enumerate() {
+        if j != i {
+            out.push(x.clone());
+        } else if let Some(n) = &new {
+            if tag_of(s) == "o" {
+                out.push(sx::list(vec![x.as_list().unwrap()[0].clone(), n.clone()]));
+            } else {
+                out.push(n.clone());
+            }
+        }
+    }
+    sx::list(out)
+}
+
+/// paths to all leaves (scalars and empty containers)
+fn leaves(s: &Sx, cur: &mut Vec<usize>, out: &mut Vec<Vec<usize>>) {
+    let ch = children(s);
+    if ch.is_empty() {
+        out.push(cur.clone());
+        return;
+    }
+    for (i, c) in ch.iter().enumerate() {
+        cur.push(i);
+        leaves(c, cur, out);
+        cur.pop();
+    }
+}
+
+fn get<'a>(s: &'a Sx, path: &[usize]) -> Sx {
+    if path.is_empty() {
+        return s.clone();
+    }
+    get(&children(s)[path[0]], &path[1..])
+}
+
+/// replace (Some) or remove (None) the node at `path`
+fn edit(s: &Sx, path: &[usize], new: Option<Sx>) -> Sx {
+    if path.len() == 1 {
+        return with_child(s, path[0], new);
+    }
+    let c = edit(&children(s)[path[0]], &path[1..], new);
+    with_child(s, path[0], Some(c))
+}
+
+fn path_name(s: &Sx, path: &[usize]) -> String {
+    let mut cur = s.clone();
+    let mut name = String::new();
+    for &i in path {
+        if tag_of(&cur) == "o" {
+            let k = cur.as_list().unwrap()[1 + i].as_list().unwrap()[0].as_str().unwrap_or_default();
+            name.push('.');
+            name.push_str(&k);
+        } else {
+            name.push_str(&format!("[{}]", i));
+        }
+        cur = children(&cur)[i].clone();
+    }
+    name
+}
+
+fn jtype(s: &Sx) -> &'static str {
+    match tag_of(s) {
+        "n" => "null",
+        "t" | "f" => "bool",
+        "i" => "int",
+        "d" => "float",
+        "s" => "string",
+        "a" => "array",
+        "o" => "object",
+        _ => "?",
+    }
+}
+
+fn jint(i: i64) -> Sx {
+    sx::list(vec![sx::atom("i"), sx::int(i)])
+}
+fn jflt(f: f64) -> Sx {
+    sx::list(vec![sx::atom("d"), sx::atom(format!("{}", f.to_bits()))])
+}
+fn jstr(s: &str) -> Sx {
+    sx::list(vec![sx::atom("s"), sx::xs(s)])
+}
+
+/// a different value of the same JSON type
+fn changed(leaf: &Sx) -> Sx {
+    match tag_of(leaf) {
+        "n" => sx::atom("n"), // no other value of type null: callers skip it
+        "t" => sx::atom("f"),
+        "f" => sx::atom("t"),
+        "i" => {
+            let v: i64 = leaf.as_list().unwrap()[1].as_atom().unwrap().parse().unwrap_or(0);
+            jint(v + 1)
+        }
+        "d" => {
+            let b: u64 = leaf.as_list().unwrap()[1].as_atom().unwrap().parse().unwrap_or(0);
+            sx::list(vec![sx::atom("d"), sx::atom(format!("{}", b + 1))])
+        }
+        "s" => {
+            let v = leaf.as_list().unwrap()[1].as_str().unwrap_or_default();
+            jstr(&format!("{}x", v))
+        }
+        "a" => sx::tagged("a", vec![sx::atom("n")]),
+        _ => sx::tagged("o", vec![sx::list(vec![sx::xs("k"), sx::tagged("o", vec![])])]),
+    }
+}
+
+fn retypes(leaf: &Sx) -> Vec<(&'static str, Sx)> {
+    let all: Vec<(&'static str, Sx)> = vec![
+        ("null", sx::atom("n")),
+        ("bool", sx::atom("t")),
+        ("int", jint(7)),
+        ("float", jflt(1.5)),
+        ("string", jstr("1")),
+        ("array", sx::tagged("a", vec![])),
+        ("object", sx::tagged("o", vec![])),
+    ];
+    all.into_iter().filter(|(t, _)| *t != jtype(leaf)).collect()
+}
+
+/// request object with the parameters replaced
+fn req_with_params(pos: usize, client: usize, params: Option<Sx>) -> Sx {
+    req_with_params_id(pos, &format!("@cid{}", client), params)
+}
+
+fn req_with_params_id(pos: usize, cid: &str, params: Option<Sx>) -> Sx {
+    let base = sx::json(&canon_request(pos, cid));
+    let mut es: Vec<Sx> = base.as_list().unwrap()[1..]
+        .iter()
+        .filter(|kv| kv.as_list().unwrap()[0].as_str().as_deref() != Some("parameters"))
+        .cloned()
+        .collect();
+    if let Some(p) = params {
+        es.push(sx::list(vec![sx::xs("parameters"), p]));
+    }
+    sx::tagged("o", es)
+}
+
+/// request object with the three flags set as given (None = absent)
+fn req_with_flags(pos: usize, client: usize, flags: [Option<bool>; 3]) -> Sx {
+    req_with_flags_id(pos, &format!("@cid{}", client), flags)
+}
+
+fn req_with_flags_id(pos: usize, cid: &str, flags: [Option<bool>; 3]) -> Sx {
+    let base = sx::json(&canon_request(pos, cid));
+    let mut es: Vec<Sx> = base.as_list().unwrap()[1..]
+        .iter()
+        .filter(|kv| {
+            let k = kv.as_list().unwrap()[0].as_str().unwrap_or_default();
+            k != "more" && k != "oneway" && k != "upgrade"
+        })
+        .cloned()
+        .collect();
+    for (name, f) in ["more", "oneway", "upgrade"].iter().zip(flags.iter()) {
+        if let Some(b) = f {
+            es.push(sx::list(vec![sx::xs(name), sx::boolean(*b)]));
+        }
+    }
+    sx::tagged("o", es)
+}
+
+fn mode_of(pos: usize) -> [bool; 3] {
+    [pos == 10, pos == 11, false]
+}
+
+fn follow_up(conn: usize, client: usize, pos: usize) -> Vec<Sx> {
+    // after the probed request: the canonical request of the same step, then of the next one
+    let mut v = vec![canon_q(conn, pos, client)];
+    if pos + 1 < STEPS.len() {
+        v.push(canon_q(conn, pos + 1, client));
+    }
+    v
+}
+
+fn case(qs: Vec<Sx>, tags: Vec<String>) -> Case {
+    Case { input: sx::tagged("cert", qs), tags }
+}
+
+fn corpus(name: &str) -> Vec<Sx> {
+    let p = format!("{}/corpus/{}.txt", env!("CARGO_MANIFEST_DIR"), name);
+    std::fs::read_to_string(p)
+        .unwrap_or_default()
+        .lines()
+        .filter(|l| l.trim_start().starts_with('('))
+        .filter_map(sx::parse)
+        .collect()
+}
+
+/// is the value at this path of the canonical parameters one that decodes into an `Option` that
+/// is `None` (the two nullable members of MyType, and the null elements of interface.foo)?
+fn is_null_leaf(leaf: &Sx) -> bool {
+    tag_of(leaf) == "n"
+}
+
+impl Suite for CertSuite {
+    fn setup(&self, ctx: &Ctx) {
+        start_server(ctx);
+    }
+    fn teardown(&self, _ctx: &Ctx) {
+        stop_server();
+    }
+
+    fn generate(&self, ctx: &Ctx) -> Vec<Case> {
+        let mut out: Vec<Case> =
+            corpus("cert").into_iter().map(|input| Case { input, tags: vec!["corpus".into()] }).collect();
+        let mut r = Rng::new(ctx.seed);
+        let nsteps = STEPS.len();
+
+        // A. the canonical sequence, one client
+        out.push(case(prefix(0, 0, nsteps), vec!["canonical".into(), "class:canon".into()]));
+
+        // B. every step x every single-leaf mutation of its canonical parameters
+        for pos in 1..nsteps {
+            let params = sx::json(&canon_params(pos, "@cid0").unwrap());
+            let mut ls = vec![];
+            leaves(&params, &mut vec![], &mut ls);
+            // quick: the big MyType tree is sampled, everything else is exhaustive
+            for path in ls {
+                let leaf = get(&params, &path);
+                let name = path_name(&params, &path);
+                let mut muts: Vec<(String, &str, Sx)> = vec![];
+                // a set member `{}` may hold anything: `{"k":{}}` is still the empty struct
+                let set_member = tag_of(&leaf) == "o" && (name.contains(".set.") || name.contains(".stringset."));
+                if tag_of(&leaf) != "n" {
+                    let class = if set_member { "same" } else { "dev" };
+                    muts.push(("changed".into(), class, edit(&params, &path, Some(changed(&leaf)))));
+                }
+                // removing a member that is null (an Option that is None) leaves the typed value alone,
+                // unless it is an array element (interface.foo[i]: the array gets shorter)
+                let in_array = name.ends_with(']');
+                let rm_class = if is_null_leaf(&leaf) && !in_array { "same" } else { "dev" };
+                muts.push(("removed".into(), rm_class, edit(&params, &path, None)));
+                for (t, v) in retypes(&leaf) {
+                    // an empty struct (set member `{}`) may also be written `[]`
+                    let class = if set_member && t == "array" { "same" } else { "dev" };
+                    muts.push((format!("retyped:{}", t), class, edit(&params, &path, Some(v))));
+                }
+                for (kind, class, p) in muts {
+                    if !ctx.thorough && pos == 10 && kind.starts_with("retyped") && r.chance(2, 3) {
+                        continue;
+                    }
+                    let mut qs = prefix(0, 0, pos);
+                    qs.push(q(0, class, req_with_params(pos, 0, Some(p))));
+                    qs.extend(follow_up(0, 0, pos));
+                    out.push(case(
+                        qs,
+                        vec![
+                            "leaf-mutation".into(),
+                            format!("step:{}", STEPS[pos]),
+                            format!("mut:{}", kind.split(':').next().unwrap()),
+                            format!("class:{}", class),
+                        ],
+                    ));
+                }
+            }
+            // parameters as a whole: absent, null, wrong JSON types
+            for (kind, p) in [
+                ("params-absent", None),
+                ("params-null", Some(sx::atom("n"))),
+                ("params-string", Some(jstr("x"))),
+                ("params-int", Some(jint(1))),
+                ("params-empty-array", Some(sx::tagged("a", vec![]))),
+                ("params-empty-object", Some(sx::tagged("o", vec![]))),
+            ] {
+                let mut qs = prefix(0, 0, pos);
+                qs.push(q(0, "dev", req_with_params(pos, 0, p)));
+                qs.extend(follow_up(0, 0, pos));
+                out.push(case(qs, vec!["params-mutation".into(), format!("mut:{}", kind), "class:dev".into()]));
+            }
+            // typed-same rewrites of the whole parameter object
+            {
+                // an extra (unknown) member on the top level and inside every nested struct object
+                let mut es = params.as_list().unwrap().to_vec();
+                es.push(sx::list(vec![sx::xs("zz_extra"), jint(7)]));
+                let mut qs = prefix(0, 0, pos);
+                qs.push(q(0, "same", req_with_params(pos, 0, Some(sx::list(es)))));
+                qs.extend(follow_up(0, 0, pos));
+                out.push(case(qs, vec!["same-rewrite".into(), "mut:extra-member".into(), "class:same".into()]));
+                // struct-from-array form of the parameter struct (members in declaration order)
+                let order: &[&str] = match pos {
+                    2 => &["client_id", "bool"],
+                    3 => &["client_id", "int"],
+                    4 => &["client_id", "float"],
+                    5 => &["client_id", "string"],
+                    6 => &["client_id", "bool", "int", "float", "string"],
+                    7 => &["client_id", "struct"],
+                    8 => &["client_id", "map"],
+                    9 => &["client_id", "set"],
+                    10 => &["client_id", "mytype"],
+                    11 => &["client_id", "last_more_replies"],
+                    _ => &["client_id"],
+                };
+                let mut arr = vec![sx::atom("a")];
+                for k in order {
+                    let v = params.as_list().unwrap()[1..]
+                        .iter()
+                        .find(|kv| kv.as_list().unwrap()[0].as_str().as_deref() == Some(*k))
+                        .map(|kv| kv.as_list().unwrap()[1].clone())
+                        .unwrap();
+                    arr.push(v);
+                }
+                let mut qs = prefix(0, 0, pos);
+                qs.push(q(0, "same", req_with_params(pos, 0, Some(sx::list(arr.clone())))));
+                qs.extend(follow_up(0, 0, pos));
+                out.push(case(qs, vec!["same-rewrite".into(), "mut:array-form".into(), "class:same".into()]));
+                // ... and with one element too many / too few: deviations
+                let mut long = arr.clone();
+                long.push(sx::atom("n"));
+                let mut short = arr.clone();
+                short.pop();
+                for (kind, a) in [("array-form-long", long), ("array-form-short", short)] {
+                    let mut qs = prefix(0, 0, pos);
+                    qs.push(q(0, "dev", req_with_params(pos, 0, Some(sx::list(a)))));
+                    qs.extend(follow_up(0, 0, pos));
+                    out.push(case(qs, vec!["params-mutation".into(), format!("mut:{}", kind), "class:dev".into()]));
+                }
+            }
+        }
+        // container-level mutations: one more member / element at every inner node, arrays reversed,
+        // duplicate members in the text (the later one wins when `parameters` becomes a Value)
+        for pos in 1..nsteps {
+            let params = sx::json(&canon_params(pos, "@cid0").unwrap());
+            let mut nodes: Vec<Vec<usize>> = vec![vec![]];
+            fn inner(s: &Sx, cur: &mut Vec<usize>, out: &mut Vec<Vec<usize>>) {
+                for (i, c) in children(s).iter().enumerate() {
+                    if tag_of(c) == "o" || tag_of(c) == "a" {
+                        cur.push(i);
+                        out.push(cur.clone());
+                        inner(c, cur, out);
+                        cur.pop();
+                    }
+                }
+            }
+            inner(&params, &mut vec![], &mut nodes);
+            for path in nodes {
+                let node = get(&params, &path);
+                let name = path_name(&params, &path);
+                // which objects are maps / sets / free-form Values (an extra member changes the value)
+                // and which are structs (an unknown member is ignored)?
+                let is_map = name.ends_with(".map")
+                    || name.ends_with(".set")
+                    || name.ends_with(".dictionary")
+                    || name.ends_with(".stringset")
+                    || name.contains(".object")
+                    || name.ends_with(".foo[1]")
+                    || name.ends_with(".foo[3]");
+                let is_set_member = (name.contains(".set.") || name.contains(".stringset.")) && !name.ends_with(".set");
+                let (kind, class, mutated) = if tag_of(&node) == "o" {
+                    let mut l = node.as_list().unwrap().to_vec();
+                    l.push(sx::list(vec![sx::xs("zz_more"), jstr("foo")]));
+                    let class = if is_map && !is_set_member { "dev" } else { "same" };
+                    ("extra-member-inner", class, sx::list(l))
+                } else {
+                    let mut l = node.as_list().unwrap().to_vec();
+                    l.push(jstr("one"));
+                    ("extra-element", "dev", sx::list(l))
+                };
+                let p = if path.is_empty() { mutated } else { edit(&params, &path, Some(mutated)) };
+                let mut qs = prefix(0, 0, pos);
+                qs.push(q(0, class, req_with_params(pos, 0, Some(p))));
+                qs.extend(follow_up(0, 0, pos));
+                out.push(case(qs, vec!["container-mutation".into(), format!("mut:{}", kind), format!("class:{}", class)]));
+                if tag_of(&node) == "a" && node.as_list().unwrap().len() > 2 {
+                    let l = node.as_list().unwrap();
+                    let mut rev = vec![l[0].clone()];
+                    rev.extend(l[1..].iter().rev().cloned());
+                    let p = edit(&params, &path, Some(sx::list(rev)));
+                    let mut qs = prefix(0, 0, pos);
+                    qs.push(q(0, "dev", req_with_params(pos, 0, Some(p))));
+                    qs.extend(follow_up(0, 0, pos));
+                    out.push(case(qs, vec!["container-mutation".into(), "mut:array-reversed".into(), "class:dev".into()]));
+                }
+            }
+            // duplicate `client_id`: the later member wins
+            let es = params.as_list().unwrap()[1..].to_vec();
+            let bogus = sx::list(vec![sx::xs("client_id"), jstr("zz-bogus")]);
+            let mut first_bogus = vec![sx::atom("o"), bogus.clone()];
+            first_bogus.extend(es.iter().cloned());
+            let mut last_bogus = vec![sx::atom("o")];
+            last_bogus.extend(es.iter().cloned());
+            last_bogus.push(bogus);
+            for (kind, class, p) in [("dup-member-canonical-last", "same", sx::list(first_bogus)), ("dup-member-bogus-last", "dev", sx::list(last_bogus))] {
+                let mut qs = prefix(0, 0, pos);
+                qs.push(q(0, class, req_with_params(pos, 0, Some(p))));
+                qs.extend(follow_up(0, 0, pos));
+                out.push(case(qs, vec!["text-duplicates".into(), format!("mut:{}", kind), format!("class:{}", class)]));
+            }
+            // the request object itself with `method` twice: not a request for from_slice
+            let base = sx::json(&canon_request(pos, "@cid0"));
+            let mut l = base.as_list().unwrap().to_vec();
+            l.push(sx::list(vec![sx::xs("method"), jstr(&format!("org.varlink.certification.{}", STEPS[pos]))]));
+            let mut qs = prefix(0, 0, pos);
+            qs.push(q(0, "dev", sx::list(l)));
+            qs.extend(follow_up(1, 0, pos));
+            out.push(case(qs, vec!["text-duplicates".into(), "mut:dup-method".into(), "class:dev".into()]));
+        }
+
+        // integers where the type is float (1 for 1.0 is the same f64; 3 is not PI)
+        for (pos, member, class, v) in [
+            (4usize, "float", "same", jint(1)),
+            (4, "float", "dev", jint(2)),
+            (6, "float", "dev", jint(3)),
+            (3, "int", "dev", jflt(1.0)),
+        ] {
+            let params = sx::json(&canon_params(pos, "@cid0").unwrap());
+            let idx = params.as_list().unwrap()[1..]
+                .iter()
+                .position(|kv| kv.as_list().unwrap()[0].as_str().as_deref() == Some(member))
+                .unwrap();
+            let p = edit(&params, &[idx], Some(v));
+            let mut qs = prefix(0, 0, pos);
+            qs.push(q(0, class, req_with_params(pos, 0, Some(p))));
+            qs.extend(follow_up(0, 0, pos));
+            out.push(case(qs, vec!["number-retype".into(), "mut:int-vs-float".into(), format!("class:{}", class)]));
+        }
+        // set members that are non-empty objects (decode to the same set)
+        for pos in [9usize, 10] {
+            let params = sx::json(&canon_params(pos, "@cid0").unwrap());
+            let mut ls = vec![];
+            leaves(&params, &mut vec![], &mut ls);
+            for path in ls {
+                let name = path_name(&params, &path);
+                let leaf = get(&params, &path);
+                if tag_of(&leaf) == "o" && (name.contains(".set.") || name.contains(".stringset.")) {
+                    let v = sx::tagged("o", vec![sx::list(vec![sx::xs("x"), jint(5)])]);
+                    let mut qs = prefix(0, 0, pos);
+                    qs.push(q(0, "same", req_with_params(pos, 0, Some(edit(&params, &path, Some(v))))));
+                    qs.extend(follow_up(0, 0, pos));
+                    out.push(case(qs, vec!["same-rewrite".into(), "mut:set-member-nonempty-object".into(), "class:same".into()]));
+                }
+            }
+        }
+        // exotic but typed-equal spellings inside nested values: a unit variant as a single-key map,
+        // nested structs as arrays; and near misses of those
+        {
+            let find = |tree: &Sx, dotted: &str| -> Vec<usize> {
+                let mut ls = vec![];
+                fn all(s: &Sx, cur: &mut Vec<usize>, out: &mut Vec<Vec<usize>>) {
+                    out.push(cur.clone());
+                    for (i, c) in children(s).iter().enumerate() {
+                        cur.push(i);
+                        all(c, cur, out);
+                        cur.pop();
+                    }
+                }
+                all(tree, &mut vec![], &mut ls);
+                ls.into_iter().find(|p| path_name(tree, p) == dotted).expect("path")
+            };
+            let pi = std::f64::consts::PI;
+            let variants: Vec<(usize, &str, &str, Sx)> = vec![
+                (10, ".mytype.enum", "same", sx::tagged("o", vec![sx::list(vec![sx::xs("two"), sx::atom("n")])])),
+                (10, ".mytype.enum", "dev", sx::tagged("o", vec![sx::list(vec![sx::xs("two"), sx::tagged("o", vec![])])])),
+                (10, ".mytype.enum", "dev", sx::tagged("o", vec![sx::list(vec![sx::xs("one"), sx::atom("n")]), sx::list(vec![sx::xs("two"), sx::atom("n")])])),
+                (10, ".mytype.enum", "dev", sx::tagged("o", vec![sx::list(vec![sx::xs("three"), sx::atom("n")])])),
+                (10, ".mytype.enum", "dev", sx::tagged("a", vec![jstr("two")])),
+                (10, ".mytype.struct", "same", sx::tagged("a", vec![jint(1), jstr("2")])),
+                (10, ".mytype.struct", "dev", sx::tagged("a", vec![jstr("2"), jint(1)])),
+                (10, ".mytype.struct", "dev", sx::tagged("a", vec![jint(1), jstr("2"), sx::atom("n")])),
+                (10, ".mytype.interface.anon", "same", sx::tagged("a", vec![sx::atom("t"), sx::atom("f")])),
+                (10, ".mytype.interface.anon", "dev", sx::tagged("a", vec![sx::atom("f"), sx::atom("t")])),
+                (10, ".mytype.interface.foo[1].foo", "same", sx::tagged("o", vec![sx::list(vec![sx::xs("foo"), sx::atom("n")])])),
+                (10, ".mytype.interface.foo[1].foo", "dev", jstr("baz")),
+                (10, ".mytype.interface.foo", "dev", sx::atom("n")),
+                (10, ".mytype.nullable", "dev", jstr("")),
+                (10, ".mytype.nullable_array_struct", "dev", sx::tagged("a", vec![])),
+                (10, ".mytype.struct.first", "dev", jflt(1.0)),
+                (10, ".mytype.struct.first", "dev", sx::list(vec![sx::atom("i"), sx::atom("9223372036854775808")])),
+                (7, ".struct", "same", sx::tagged("a", vec![sx::atom("f"), jint(2), jflt(pi), jstr("a lot of string")])),
+                (7, ".struct", "dev", sx::tagged("a", vec![sx::atom("f"), jint(2), jflt(pi)])),
+                (7, ".struct.float", "dev", jflt(3.141592653589793 + 4.440892098500626e-16)),
+                (7, ".struct.int", "dev", jflt(2.0)),
+                (4, ".float", "dev", jflt(1.0000000000000002)),
+                (4, ".float", "same", sx::list(vec![sx::atom("i"), sx::atom("1")])),
+                (4, ".float", "dev", sx::list(vec![sx::atom("i"), sx::atom("18446744073709551615")])),
+                (3, ".int", "dev", sx::list(vec![sx::atom("i"), sx::atom("18446744073709551615")])),
+                (3, ".int", "dev", sx::list(vec![sx::atom("i"), sx::atom("-9223372036854775808")])),
+                (2, ".bool", "dev", jint(1)),
+                (2, ".bool", "dev", jstr("true")),
+            ];
+            for (pos, dotted, class, v) in variants {
+                let params = sx::json(&canon_params(pos, "@cid0").unwrap());
+                let path = find(&params, dotted);
+                let p = edit(&params, &path, Some(v));
+                let mut qs = prefix(0, 0, pos);
+                qs.push(q(0, class, req_with_params(pos, 0, Some(p))));
+                qs.extend(follow_up(0, 0, pos));
+                out.push(case(qs, vec!["typed-spelling".into(), format!("class:{}", class)]));
+            }
+        }
+
+        // Start with parameters
+        for (class, p) in [
+            ("same", Some(sx::tagged("o", vec![]))),
+            ("same", Some(sx::atom("n"))),
+            ("dev", Some(sx::tagged("o", vec![sx::list(vec![sx::xs("x"), jint(1)])]))),
+            ("dev", Some(sx::tagged("a", vec![]))),
+            ("dev", Some(jstr("x"))),
+        ] {
+            let mut qs = vec![q(0, class, req_with_params(0, 0, p))];
+            qs.push(canon_q(0, 1, 0));
+            out.push(case(qs, vec!["start-params".into(), format!("class:{}", class)]));
+        }
+
+        // C. every step x every call-mode flag combination
+        let tri = [None, Some(false), Some(true)];
+        for pos in 0..nsteps {
+            for m in tri {
+                for o in tri {
+                    for u in tri {
+                        let want = mode_of(pos);
+                        let same = [m == Some(true), o == Some(true), u == Some(true)] == want;
+                        let canon = same && [m, o, u] == [if want[0] { Some(true) } else { None }, if want[1] { Some(true) } else { None }, None];
+                        let class = if canon { "canon" } else if same { "same" } else { "dev" };
+                        let mut qs = prefix(0, 0, pos);
+                        qs.push(q(0, class, req_with_flags(pos, 0, [m, o, u])));
+                        qs.extend(follow_up(0, 0, pos));
+                        out.push(case(qs, vec!["flags".into(), format!("step:{}", STEPS[pos]), format!("class:{}", class)]));
+                    }
+                }
+            }
+        }
+
+        // D. every step at every wrong position
+        for at in 0..nsteps {
+            for pos in 1..nsteps {
+                if pos == at {
+                    continue;
+                }
+                // client is about to send step `at` (at = 0: has not even started) and sends `pos`
+                let mut qs = prefix(0, 0, at);
+                qs.push(q(0, "dev", sx::json(&canon_request(pos, "@cid0"))));
+                if at >= 1 {
+                    qs.push(canon_q(0, at, 0)); // the expected step still works: nothing was consumed
+                }
+                out.push(case(qs, vec!["wrong-position".into(), "class:dev".into()]));
+            }
+        }
+
+        // E. unknown client ids; ids of other clients; finished clients
+        for pos in 1..nsteps {
+            out.push(case(
+                vec![q(0, "dev", sx::json(&canon_request(pos, "zz-never-handed-out")))],
+                vec!["unknown-id".into(), "class:dev".into()],
+            ));
+            out.push(case(
+                vec![q(0, "dev", sx::json(&canon_request(pos, "")))],
+                vec!["unknown-id".into(), "class:dev".into()],
+            ));
+            // a second client at Test01 does not help the first one's id at a later step, and vice versa
+            let mut qs = prefix(0, 0, pos);
+            qs.push(canon_q(1, 0, 1));
+            qs.push(q(1, if pos == 1 { "canon" } else { "dev" }, sx::json(&canon_request(pos, "@cid1"))));
+            qs.push(canon_q(1, pos, 0)); // client 0's step sent over client 1's connection: ids, not connections, count
+            out.push(case(qs, vec!["other-client".into()]));
+        }
+        {
+            let mut qs = prefix(0, 0, nsteps);
+            qs.push(canon_q(0, 12, 0)); // End again: End -> End
+            qs.push(q(0, "dev", sx::json(&canon_request(1, "@cid0"))));
+            out.push(case(qs, vec!["after-end".into()]));
+        }
+
+        // F. interleavings of 1..16 canonical clients, each on its own connection
+        let n_inter = if ctx.thorough { 400 } else { 60 };
+        for i in 0..n_inter {
+            let n = 1 + (i % 16);
+            let mut pos = vec![0usize; n];
+            let mut started: Vec<Option<usize>> = vec![None; n]; // start order = @cid index
+            let mut next_id = 0;
+            let mut qs = vec![];
+            loop {
+                let live: Vec<usize> = (0..n).filter(|c| pos[*c] < nsteps).collect();
+                if live.is_empty() {
+                    break;
+                }
+                let c = *r.pick(&live);
+                if pos[c] == 0 {
+                    started[c] = Some(next_id);
+                    next_id += 1;
+                }
+                let conn = if r.chance(1, 10) { r.below(n) } else { c };
+                qs.push(canon_q(conn, pos[c], started[c].unwrap()));
+                pos[c] += 1;
+            }
+            out.push(case(qs, vec!["interleaving".into(), format!("clients:{}", n), "class:canon".into()]));
+        }
+
+        // I. random sessions: several clients, canonical steps mixed with deviations of every kind, so
+        //    that deviations meet every reachable per-client state (also the states after a failed step)
+        let n_sessions = if ctx.thorough { 2500 } else { 150 };
+        for _ in 0..n_sessions {
+            let n = r.range(1, 4);
+            let mut pos = vec![0usize; n]; // the generator's guess of what the server expects
+            let mut cid: Vec<Option<usize>> = vec![None; n];
+            let mut next_id = 0;
+            let len = r.range(8, 40);
+            let mut qs = vec![];
+            for _ in 0..len {
+                let c = r.below(n);
+                if pos[c] == 0 || cid[c].is_none() {
+                    qs.push(q(c, "other", sx::json(&canon_request(0, "@cid0"))));
+                    cid[c] = Some(next_id);
+                    next_id += 1;
+                    pos[c] = 1;
+                    continue;
+                }
+                let id = format!("@cid{}", cid[c].unwrap());
+                let p = pos[c].min(nsteps - 1);
+                match r.below(10) {
+                    0..=4 => {
+                        qs.push(q(c, "other", sx::json(&canon_request(p, &id))));
+                        if pos[c] < nsteps - 1 {
+                            pos[c] += 1;
+                        }
+                    }
+                    5 => {
+                        // some other step
+                        let k = r.range(1, nsteps - 1);
+                        qs.push(q(c, "other", sx::json(&canon_request(k, &id))));
+                        if k == p && pos[c] < nsteps - 1 {
+                            pos[c] += 1;
+                        }
+                    }
+                    6 | 7 => {
+                        // the expected step with one leaf of its parameters mutated
+                        let params = sx::json(&canon_params(p, &id).unwrap());
+                        let mut ls = vec![];
+                        leaves(&params, &mut vec![], &mut ls);
+                        let path = r.pick(&ls).clone();
+                        let leaf = get(&params, &path);
+                        let (m, keeps_type) = match r.below(3) {
+                            0 => (edit(&params, &path, Some(changed(&leaf))), true),
+                            1 => (edit(&params, &path, None), false),
+                            _ => {
+                                let rs = retypes(&leaf);
+                                (edit(&params, &path, Some(r.pick(&rs).1.clone())), false)
+                            }
+                        };
+                        qs.push(q(c, "other", req_with_params_id(p, &id, Some(m))));
+                        if keeps_type && pos[c] < nsteps - 1 {
+                            pos[c] += 1; // check_client_id consumed the step although the check failed
+                        }
+                    }
+                    8 => {
+                        let tri = [None, Some(false), Some(true)];
+                        let f = [*r.pick(&tri), *r.pick(&tri), *r.pick(&tri)];
+                        qs.push(q(c, "other", req_with_flags_id(p, &id, f)));
+                        if pos[c] < nsteps - 1 {
+                            pos[c] += 1;
+                        }
+                    }
+                    _ => {
+                        // somebody else's id, or none at all
+                        let other = if r.chance(1, 2) { "zz-unknown".to_string() } else { format!("@cid{}", r.below(next_id.max(1))) };
+                        qs.push(q(c, "other", sx::json(&canon_request(p, &other))));
+                    }
+                }
+            }
+            out.push(case(qs, vec!["random-session".into(), format!("clients:{}", n)]));
+        }
+
+        // G. bad frames and other interfaces
+        for (kind, tree) in [
+            ("method-missing", sx::tagged("o", vec![])),
+            ("method-null", sx::tagged("o", vec![sx::list(vec![sx::xs("method"), sx::atom("n")])])),
+            (
+                "more-not-bool",
+                sx::tagged(
+                    "o",
+                    vec![
+                        sx::list(vec![sx::xs("method"), jstr("org.varlink.certification.Start")]),
+                        sx::list(vec![sx::xs("more"), jint(1)]),
+                    ],
+                ),
+            ),
+            ("unknown-method", sx::tagged("o", vec![sx::list(vec![sx::xs("method"), jstr("org.varlink.certification.Test12")])])),
+            ("unknown-interface", sx::tagged("o", vec![sx::list(vec![sx::xs("method"), jstr("org.varlink.certificatio.Start")])])),
+            ("no-dot", sx::tagged("o", vec![sx::list(vec![sx::xs("method"), jstr("Start")])])),
+            ("request-as-array", sx::tagged("a", vec![sx::atom("n"), sx::atom("n"), sx::atom("n"), jstr("org.varlink.certification.Start"), sx::atom("n")])),
+        ] {
+            let class = if kind == "request-as-array" { "same" } else { "dev" };
+            let qs = vec![q(0, class, tree), canon_q(0, 0, 0), canon_q(0, 1, 0)];
+            out.push(case(qs, vec!["frames".into(), format!("mut:{}", kind)]));
+        }
+
+        // H. really concurrent clients
+        let ns: &[usize] = if ctx.thorough { &[1, 2, 3, 4, 6, 8, 12, 16, 16, 16] } else { &[1, 2, 4, 8, 16] };
+        for n in ns {
+            out.push(Case { input: sx::tagged("conc", vec![sx::nat(*n)]), tags: vec!["concurrent".into(), format!("clients:{}", n)] });
+        }
+        for n in if ctx.thorough { vec![1, 4, 16] } else { vec![1, 4] } {
+            out.push(Case { input: sx::tagged("realclient", vec![sx::nat(n)]), tags: vec!["real-client".into(), format!("clients:{}", n)] });
+        }
+        out
+    }
+
+    fn run(&self, ctx: &Ctx, input: &Sx) -> Sx {
+        start_server(ctx);
+        let l = input.as_list().expect("case");
+        match l[0].as_atom().unwrap_or("") {
+            "cert" => run_cert(&l[1..]),
+            "conc" => {
+                let n = l[1].as_usize().expect("n");
+                let path = server_path();
+                let barrier = std::sync::Arc::new(std::sync::Barrier::new(n));
+                let hs: Vec<_> = (0..n)
+                    .map(|c| {
+                        let path = path.clone();
+                        let barrier = barrier.clone();
+                        std::thread::spawn(move || -> Sx {
+                            let mut conn = match connect(&path) {
+                                Some(c) => c,
+                                None => return sx::tagged("client", vec![sx::atom("connect-failed")]),
+                            };
+                            barrier.wait();
+                            let mut ids: Vec<String> = Vec::new();
+                            let mut rs = vec![];
+                            for pos in 0..STEPS.len() {
+                                let cid = ids.first().cloned().unwrap_or_else(|| "@cid0".into());
+                                let text = serde_json::to_string(&canon_request(pos, &cid)).unwrap();
+                                let (replies, end) = exchange(&mut conn, text.as_bytes(), pos);
+                                if pos == 0 {
+                                    if let Some(id) = new_id_of(&replies) {
+                                        ids.push(id);
+                                    }
+                                }
+                                let mut r = vec![match end {
+                                    End::Open => sx::atom("f"),
+                                    End::Closed => sx::atom("t"),
+                                    End::Timeout => sx::atom("timeout"),
+                                }];
+                                // this thread's id is printed as @cid<thread index>
+                                r.extend(replies.iter().map(|v| {
+                                    let mut padded: Vec<String> = vec![String::from("\u{0}unused"); c];
+                                    padded.extend(ids.iter().cloned());
+                                    reply_sx(v, &padded)
+                                }));
+                                rs.push(sx::tagged("r", r));
+                                if !matches!(end, End::Open) {
+                                    break;
+                                }
+                            }
+                            sx::tagged("client", rs)
+                        })
+                    })
+                    .collect();
+                let rs: Vec<Sx> = hs.into_iter().map(|h| h.join().unwrap_or(sx::atom("thread-panicked"))).collect();
+                sx::tagged("obs", rs)
+            }
+            "realclient" => {
+                let n = l[1].as_usize().expect("n");
+                let path = server_path();
+                let mut children: Vec<Child> = (0..n)
+                    .map(|_| {
+                        Command::new(server_bin())
+                            .arg("--client")
+                            .arg(format!("--varlink=unix:{}", path))
+                            .stdin(Stdio::null())
+                            .stdout(Stdio::null())
+                            .stderr(Stdio::null())
+                            .spawn()
+                            .expect("spawn client")
+                    })
+                    .collect();
+                let rs: Vec<Sx> = children
+                    .iter_mut()
+                    .map(|c| {
+                        let code = c.wait().ok().and_then(|s| s.code()).unwrap_or(-1);
+                        sx::tagged("exit", vec![sx::int(code as i64)])
+                    })
+                    .collect();
+                sx::tagged("obs", rs)
+            }
+            _ => sx::atom("bad-case"),
+        }
     }
 }
